@@ -1,5 +1,3 @@
 package verifsim
 
-func (r *e1Run) scanSecret(node int, key, val []byte)                {}
-func (r *e1Run) encArgs(slot int) string                             { return "" }
-func (r *e1Run) noteSecrets(slot int, wants map[string]string)       {}
+func (r *e1Run) noteSecrets(slot int, wants map[string]string) {}
